@@ -6,8 +6,9 @@
          the value is canonical ([wt]) the instance of C21_roundtrip is evaluated as well:
          decoding the bytes with [std_fuel] must return exactly the value.
    CDec: arbitrary bytes and what x.Decode / x.DecodeBare / Decode<Class> did with them: same
-         outcome class; on success the same number of unread bytes and the model's re-encoding
-         of the model's decoded value equals Go's re-encoding of Go's decoded value. *)
+         outcome class; on success the same number of unread bytes, the model's re-encoding of the
+         model's decoded value equals Go's re-encoding of Go's decoded value, and (when the
+         harness supplies it) the decoded values themselves are equal. *)
 From Coq Require Import List ZArith Bool.
 From TD Require Import Lib.RunLib Lib.GoSem Lib.GoSlice Model.TlPrim Gen.SchemaTg Gen.SchemaMt Gen.SchemaE2e.
 From TD Require Export Model.TlSchema.
@@ -15,12 +16,14 @@ Import ListNotations.
 Open Scope Z_scope.
 
 Inductive eobs : Type := EBytes (b : list Z) | EErr (cls : Z) | EPanic.
-Inductive dobs : Type := DOk (reenc : list Z) (unread : Z) | DErr (cls : Z) | DPanic.
+Inductive dobs : Type := DOk (reenc : list Z) (unread : Z) (v : option value) | DErr (cls : Z) | DPanic.
 (* sch: 0 tg, 1 mt, 2 e2e.  kind: 0 boxed constructor, 1 bare constructor, 2 the class of the
    constructor.  id: constructor id. *)
 Inductive case : Type :=
 | CEnc (sch kind id : Z) (v : value) (o : eobs)
-| CDec (sch kind id : Z) (b : list Z) (o : dobs).
+| CDec (sch kind id : Z) (b : list Z) (o : dobs)
+(* x.Decode(b) on a receiver that holds [old] (boxed constructor id) *)
+| CInto (sch id : Z) (old : value) (b : list Z) (o : dobs).
 
 Definition schema_of (sch : Z) : schema :=
   if sch =? 0 then tg_schema else if sch =? 1 then mt_schema else e2e_schema.
@@ -34,30 +37,6 @@ Definition err_class (e : serr) : Z :=
   | EPrim EUnexpectedID => 3
   | ENilField => 4
   | _ => 9
-  end.
-
-Fixpoint value_eqb (a b : value) : bool :=
-  match a, b with
-  | VZ x, VZ y => x =? y
-  | VBy x, VBy y => zlist_eqb x y
-  | VBool x, VBool y => Bool.eqb x y
-  | VNil, VNil => true
-  | VVec x, VVec y =>
-      (fix go (x y : list value) : bool :=
-         match x, y with
-         | [], [] => true
-         | p :: x', q :: y' => value_eqb p q && go x' y'
-         | _, _ => false
-         end) x y
-  | VObj i x, VObj j y =>
-      (i =? j) &&
-      (fix go (x y : list value) : bool :=
-         match x, y with
-         | [], [] => true
-         | p :: x', q :: y' => value_eqb p q && go x' y'
-         | _, _ => false
-         end) x y
-  | _, _ => false
   end.
 
 Definition ok (c : case) : bool :=
@@ -87,13 +66,29 @@ Definition ok (c : case) : bool :=
       | None => false
       | Some t =>
           match decode s t (std_fuel b) b, o with
-          | Ok (v, rest), DOk reenc unread =>
+          | Ok (v, rest), DOk reenc unread gv =>
               (len rest =? unread) &&
-              match encode s t v with Ok b' => zlist_eqb b' reenc | _ => false end
+              match encode s t v with Ok b' => zlist_eqb b' reenc | _ => false end &&
+              match gv with Some g => value_eqb v g | None => true end
           | Err e, DErr cls => err_class e =? cls
           | Panic, DPanic => true
           | _, _ => false
           end
+      end
+  | CInto sch id old b o =>
+      let s := schema_of sch in
+      match ty_of s 0 id with
+      | Some (TBoxed ci) =>
+          match decode_into s ci (std_fuel b) old b, o with
+          | Ok (v, rest), DOk reenc unread gv =>
+              (len rest =? unread) &&
+              match encode s (TBoxed ci) v with Ok b' => zlist_eqb b' reenc | _ => false end &&
+              match gv with Some g => value_eqb v g | None => true end
+          | Err e, DErr cls => err_class e =? cls
+          | Panic, DPanic => true
+          | _, _ => false
+          end
+      | _ => false
       end
   end.
 Definition mismatches (cs : list case) : list nat := mismatch_idx ok cs.
